@@ -554,10 +554,10 @@ pub fn field_fault(img: &mut Img, kind: usize) -> &'static str {
     FIELD_FAULTS[kind]
 }
 
-pub const COORDINATED_FAULTS: [&str; 11] = [
+pub const COORDINATED_FAULTS: [&str; 12] = [
     "meta_append_zeros", "remainder_prepend_zeros", "remainder_append_zeros", "fri_extra_layer", "fri_drop_layer",
     "merkle_extra_node", "merkle_extra_vector", "queries_extra_row", "commitments_extra_digest",
-    "one_more_unique_query_everywhere", "one_fewer_unique_query_everywhere",
+    "one_more_unique_query_everywhere", "one_fewer_unique_query_everywhere", "modulus_append_bytes",
 ];
 
 /// a coordinated multi-site edit: content changed AND every length that describes it re-synchronised,
@@ -641,6 +641,13 @@ pub fn coordinated_fault(img: &mut Img, kind: usize, element_bytes: usize) -> &'
                 }
             }
             img.num_unique_queries = if kind == 9 { (n + 1) as u8 } else { (n - 1) as u8 };
+        },
+        11 => {
+            let k = [1usize, 8, 16, 17, 32, 200][tape::f("coord.modulus_extra", 6) as usize];
+            let fill = [0u8, 1, 0xff][tape::f("coord.modulus_fill", 3) as usize];
+            if img.modulus.len() + k <= 255 {
+                img.modulus.extend(std::iter::repeat(fill).take(k));
+            }
         },
         _ => {},
     }
